@@ -971,6 +971,113 @@ def stage_oracle_sets(rep, rng, n):
     rep.stage('oracle:sets', failures=bad)
     return bad
 
+# ------------------------------------------------------------------------- string() against nested path-valued variables
+NEST_SUFFIXES = ['', '', 'share', 'lib', 'bin', 'lib/x86_64-linux-gnu', 'share/man', 'my dir', 'a.b', 'x', 'libexec/pkg-1.0']
+NEST_BASES = ['/usr/local', '/opt/demo', 'C:/Program Files/demo', '$(prefix)', '/R/x y', 'rel/base', '.']
+
+
+def nested_reference(roots, table, ri, suffix, win, depth=0):
+    """string() of a path (suffix, roots[ri]) under the variable table {root index: None | str | (suffix, root index)},
+    by recursion on the TABLE: the string of the root's value, a separator, the suffix (nothing added for an empty suffix;
+    a root without a value contributes nothing). Written without reference to realize()/string() of the implementation."""
+    if depth > 12:
+        raise RuntimeError('cyclic table')
+    loc = (lambda t: t.replace('/', '\\')) if win else (lambda t: t)
+    if roots[ri].name == 'absolute':
+        return loc(suffix or '.')
+    v = table.get(ri)
+    if v is None:
+        return loc(suffix or '.')
+    base = loc(v) if isinstance(v, str) else nested_reference(roots, table, v[1], v[0], win, depth + 1)
+    return base + loc('/' + suffix) if suffix else base
+
+
+def gen_nested_table(rng, rep):
+    """A variable table in which directories are relative to directories relative to ... a base: the roots (all but
+    `absolute`) in a random order, each one valued by a path below an EARLIER root of that order (so chains are 1-5 levels
+    deep), by a path below the absolute root, by a plain string, or by nothing; every level with an empty or a non-empty
+    suffix. One table in four has the shape of env.install_dirs / env.base_dirs of a real configuration."""
+    idx = [i for i in range(NROOTS) if i != 2]
+    if rng.random() < 0.25:
+        rep.count('nest:install-dirs-shape')
+        pfx = rng.choice([('/usr/local', 2), ('/opt/demo', 2), ('C:/pfx', 2), '/pfx', None])
+        return {0: ('/src/proj', 2), 1: rng.choice([None, '.', ('/bld', 2)]), 3: pfx, 4: ('', 3),
+                5: (rng.choice(['bin', 'tools/bin']), 4), 6: (rng.choice(['lib', 'lib/x86_64-linux-gnu']), 4),
+                7: ('include', 3), 8: (rng.choice(['share', 'share/data']), 3), 9: (rng.choice(['man', 'doc/man']), 8)}
+    rng.shuffle(idx)
+    table = {}
+    chain = rng.random() < 0.6        # a single long chain, otherwise a random forest
+    for k, i in enumerate(idx):
+        u = rng.random()
+        if k == 0 or (not chain and u < 0.2):
+            table[i] = rng.choice([None, rng.choice(NEST_BASES), rng.choice(NEST_BASES),
+                                   (rng.choice(['/usr/local', '/opt/demo', 'C:/pfx', '/a/b c']), 2)])
+        else:
+            parent = idx[k - 1] if (chain and k < 5) else rng.choice(idx[:k])
+            table[i] = (rng.choice(NEST_SUFFIXES), parent)
+    return table
+
+
+def nest_depth(roots, table, ri):
+    d, nonempty = 0, 0
+    while ri != 2 and isinstance(table.get(ri), tuple):
+        sfx, ri = table[ri]
+        d += 1
+        nonempty += bool(sfx)
+    return d, nonempty
+
+
+def stage_oracle_nested(rep, rng, n, tables=()):
+    """L2 for nested roots: p.string(variables) with PATH-valued variables (a directory relative to a directory relative to
+    ... the prefix - the shape of env.install_dirs, which compile_commands.json, path_exists() and shell.execute realise
+    through string()) equals the reference computed by recursion on the variable table, on both flavours, for a path in
+    every root, with empty and non-empty suffixes at every level."""
+    P, W, roots, DestDir, BasePath, bpath = impl()
+    bad = 0
+    stats = {}
+    for t in range(n):
+        table = tables[t] if t < len(tables) else gen_nested_table(rng, rep)
+        for win, cls in ((False, P), (True, W)):
+            variables = {}
+            for i in range(NROOTS):
+                v = table.get(i)
+                variables[roots[i]] = cls(v[0], roots[v[1]], directory=True) if isinstance(v, tuple) else v
+            for ri in range(NROOTS):
+                if ri == 2:
+                    s = rng.choice(['/abs/x', '/', 'C:/x'])
+                else:
+                    s = rng.choice(['', 'demo', 'demo', 'sub/file.txt', 'a b', gen_relstring(rng, rep, 3)])
+                try:
+                    p = cls(s, roots[ri], rng.choice([None, None, True]) if ri >= 3 else None)
+                except ValueError:
+                    continue
+                ri = roots.index(p.root)        # an absolute string makes an absolute path whatever root was given
+                if re.match(r'^[^/]:', p.suffix) and ri != 2:
+                    continue
+                depth, nonempty = nest_depth(roots, table, ri)
+                key = 'depth%d' % min(depth, 5)
+                stats[key] = stats.get(key, 0) + 1
+                if nonempty + bool(p.suffix) >= 2:
+                    stats['two-or-more-nonempty-suffixes'] = stats.get('two-or-more-nonempty-suffixes', 0) + 1
+                rep.case('nest:%s:%r:%d:%s' % (cls.__name__[0], p.suffix, ri, json.dumps(sorted(table.items()))), depth >= 2)
+                want = nested_reference(roots, table, ri, p.suffix, win)
+                try:
+                    got = p.string(variables)
+                except Exception as e:
+                    got = '%s: %s' % (type(e).__name__, e)
+                if got != want:
+                    bad += 1
+                    rep.fail('string_nested law broken: %s(%r, %s).string(variables) = %r, but joining the string of the '
+                             'root\'s value and the suffix level by level gives %r (variables: %s)' % (
+                                 cls.__name__, s, roots[ri].name, got, want,
+                                 {roots[k].name: v for k, v in sorted(table.items())}),
+                             {'law': 'string_nested', 'cls': cls.__name__, 's': s, 'root': ri, 'destdir': bool(p.destdir),
+                              'table': [[k, list(v) if isinstance(v, tuple) else v] for k, v in sorted(table.items())],
+                              'got': got, 'want': want})
+    rep.stage('oracle:string-nested-variables', tables=n, failures=bad, **stats)
+    return bad
+
+
 # ------------------------------------------------------------------------------------------------ string entry points
 WS = [' ', '\t', '\n', '  ', ' \t', '\r\n', '\x0b', '\u00a0', '\u2003']
 
@@ -1247,6 +1354,7 @@ def run(rep):
         found += stage_oracle_entry(rep, rng, n // 2 * mult, EntryCtx(scratch))
     finally:
         shutil.rmtree(scratch, ignore_errors=True)
+    found += stage_oracle_nested(rep, rng, n // 4 * mult)
     if dis and not rep.n_with_input:
         i, call, iv, mv = dis[0]
         rep.fail('W:%s - model and implementation disagree (%d cases), e.g. %r: impl %r, model %r' % (
